@@ -9221,6 +9221,12 @@ class SVG(Group):
                         attributes[SVG_ATTR_STROKE] = values[SVG_ATTR_COLOR]
 
                 if SVG_ATTR_TRANSFORM in attributes:
+                    try:
+                        Matrix(attributes[SVG_ATTR_TRANSFORM])
+                    except (ValueError, TypeError):
+                        # A transform that cannot be parsed is ignored, it does not abort the document.
+                        del attributes[SVG_ATTR_TRANSFORM]
+                if SVG_ATTR_TRANSFORM in attributes:
                     # If transform is already in values, append the new value.
                     if SVG_ATTR_TRANSFORM in values:
                         attributes[SVG_ATTR_TRANSFORM] = (
